@@ -268,6 +268,10 @@ def gen_table(rng, tier):
             for t2 in ("int", "td", "date"):
                 yield {"fam": "table", "op": op, "cols": cols, "form": "table",
                        "cols2": [{"t": t2, "x": [1, None] if j % 2 else [2, 1]} for j in range(len(cols))]}
+    for cols in ([{"t": "bool", "x": [0, 1, 0]}, {"t": "int", "x": [1, 2, 0]}], [{"t": "bool", "x": [0, 1]}, {"t": "bool", "x": [1, 1]}],
+                 [{"t": "int", "x": [0, 1, 2]}], []):
+        for un in list(UNOPS) + ["inv"]:
+            yield {"fam": "table", "op": "add", "cols": cols, "form": "scalar", "st": "int", "s": 0, "unary": un}
     count = 1500 if tier == "quick" else 20000
     for i in range(count):
         op = rng.choice(list(BINOPS))
@@ -289,7 +293,7 @@ def gen_table(rng, tier):
             if r < 0.4:
                 spec["refl"] = True          # scalar on the left: the same operation column by column, operands swapped
             elif r < 0.55:
-                spec["unary"] = rng.choice(list(UNOPS))      # -t, +t, abs(t): the unary operation column by column
+                spec["unary"] = rng.choice(list(UNOPS) + ["inv"])      # -t, +t, abs(t), ~t: the unary operation column by column
         else:
             spec["form"] = "table"
             r = rng.random()
@@ -487,7 +491,7 @@ def table_wire(spec):
     refl, un = bool(spec.get("refl")), spec.get("unary")
     if un:
         # encoded as "table op dummy-scalar" with the unary result in the oracle table, so that the same judge applies
-        g = UNOPS[un]
+        g = UNOPS[un] if un != "inv" else (lambda x: (not x) if isinstance(x, bool) else ~x)
         f = lambda x, y: g(x)
     elif refl:
         h = BINOPS[op]
@@ -539,8 +543,10 @@ def table_wire(spec):
                 add_pair(a, x, y)
         other = t2
     case.update(py=py, days=days, ints=sorted(ints))
+    if un == "inv" and any(c.schema() is not None and c.schema().kind is bool and c.schema().nullable for c in c1):
+        return {"skip": "~ on a nullable bool column: `not None` is True (C07's business)"}
     if un:
-        r, err = G.run(lambda: UNOPS[un](t1))
+        r, err = G.run(lambda: (~t1) if un == "inv" else UNOPS[un](t1))
     elif refl:
         r, err = G.run(lambda: BINOPS[op](other, t1))
     else:
@@ -710,7 +716,7 @@ def snippet(spec):
             return "Table({" + ", ".join(f"'c{j}': {G.pyrepr(vals(c['t'], c['x']))}" for j, c in enumerate(cols)) + "})"
         other = G.pyrepr(val(spec["st"], spec["s"])) if spec["form"] == "scalar" else tsrc(spec["cols2"])
         if spec.get("unary"):
-            e = {"neg": "-t", "pos": "+t", "abs": "abs(t)"}[spec["unary"]]
+            e = {"neg": "-t", "pos": "+t", "abs": "abs(t)", "inv": "~t"}[spec["unary"]]
         elif spec.get("refl"):
             e = f"other {SYMBOL[spec['op']]} t"
         else:
